@@ -17,6 +17,12 @@ def fault_enumeration(ctx):
         for s in scheds:
             cfgs.append(dict(tag="faults-%s-%s" % (it, "_".join(map(str, s))), phases=[dict(name="beta", gamma=0.05)], D=1e-16,
                              calls=[(20.0, 0.05)], iter=it, faults={"drivingForce": s}, cap=40))
+            # multicomponent path: the growth / interfacial-composition query returns no result, and the driving force does
+            cfgs.append(dict(tag="faults-multi-growth-%s-%s" % (it, "_".join(map(str, s))), multi=True, phases=[dict(name="beta", gamma=0.05)],
+                             calls=[(0.3, 0.05)], iter=it, faults={"growth": s}, cap=40))
+        for s in scheds[::3]:
+            cfgs.append(dict(tag="faults-multi-df-%s-%s" % (it, "_".join(map(str, s))), multi=True, phases=[dict(name="beta", gamma=0.05)],
+                             calls=[(0.3, 0.05)], iter=it, faults={"drivingForce": s}, cap=40))
     with cf.ProcessPoolExecutor(max_workers=14) as ex:
         results = list(ex.map(S._one, cfgs))
     traces = [r[0] for r in results]
@@ -31,7 +37,7 @@ def fault_enumeration(ctx):
         ctx.case(cfg["tag"], nontrivial=bool(info["fired"]), sample={"config": cfg, "fired": info["fired"]} if len(ctx.samples) < 4 else None)
         bad = [c for c in v["fails"] if c[0].startswith("C03:")]
         if v["l"] != len(ev) + 1 or bad:
-            ctx.violation("kwn-fault:%s:%s" % (cfg["iter"], bad[0][0] if bad else "trace-not-consumed"),
+            ctx.violation("kwn-fault:%s%s:%s" % ("multi-" + list(cfg["faults"])[0] + ":" if cfg.get("multi") else "", cfg["iter"], bad[0][0] if bad else "trace-not-consumed"),
                           "fault schedule %s (%s): %s %s" % (cfg["faults"], cfg["iter"], bad, info.get("error") or ""),
                           {"config": cfg, "fails": v["fails"], "info": info})
     if fired < len(cfgs) // 2:
@@ -44,8 +50,8 @@ def run(ctx, replay=None):
     ctx.rule = ("(1) the configuration suite of C01 (adaptive/fixed grids with recording, site types, ramps above the solvus, dissolution, "
                 "both iterators, repeated solve calls): every step must keep the 16 histories aligned (length n+1), times increasing, values "
                 "finite, PSD >= 0, fractions/compositions in range, sum of fractions <= 1, grid/table arrays aligned, and every solve call must end "
-                "at its requested time. (2) fault enumeration: every schedule of <= 2 failed driving-force equilibria (backend returns no result) "
-                "among the first 8 (quick) / 14 (thorough) calls x both iterators; the run must finish and satisfy all of (1). "
+                "at its requested time. (2) fault enumeration: every schedule of <= 2 backend failures (driving force returns (None, None) in binary and multicomponent runs; the multicomponent growth / "
+                "interfacial-composition query returns None) among the first 8 (quick) / 14 (thorough) calls of that kind x both iterators; the run must finish and satisfy all of (1). "
                 "Distinct = configuration or fault schedule; non-trivial = the fault actually fired / more than 5 steps.")
     ctx.assumptions = ["faults are injected at the documented failure value of getDrivingForce, (None, None); multicomponent growth faults are covered by the multicomponent suite"]
     def corrupt(ev):
